@@ -13,8 +13,8 @@ META = {
     ],
     'bounds': {
         'quick': 'the template / input / result vectors harvested (by ast, on every run) from the repository\'s own '
-                 'test_transformer.py plus 9 synthetic templates (halide -> alcohol, deletion with detached fragments, masked '
-                 'atoms, new atoms, charge change, identity), each applied to every random-order spelling of the input '
+                 'test_transformer.py plus 15 synthetic templates (halide -> alcohol, deletion with detached fragments, masked '
+                 'atoms, new atoms, charge change, identity, untouched ring / chain stereo), each applied to every random-order spelling of the input '
                  '(random() symbolic)',
         'thorough': 'more inputs per template, two-reactant Reactor templates',
     },
@@ -49,6 +49,15 @@ SYNTH = [
     ('[C:1][O;D1:2]', '[A:1][A:2]', 'CCO', ['CCO']),                    # identity
     ('[C;D1:1]', '[A:1][F;M]', 'CC', ['CCF']),
     ('[O;D1:1]', '[A:1][C;M](=[O;M])[C;M]', 'CO', ['COC(C)=O']),
+    # stereo the template does not name must survive (ring centres: the neighbour order of a ring-closing atom is not
+    # ascending, so rebuilding adjacency in another order silently inverts a copied sign)
+    ('[C:1][Br:2]', '[A:1][O;M]', 'BrCCO[C@H]1CCC[C@@H]1C', ['OCCO[C@H]1CCC[C@@H]1C']),
+    ('[C:1][Cl:2]', '[A:1]', 'ClC[C@H](N)O', ['C[C@H](N)O']),
+    ('[C:1][Cl:2]', '[A:1]', 'ClCC/C=C/F', ['CC/C=C/F']),
+    ('[N:1]-[S;D4:2](=[O:3])(=[O:4])-[C;M]', '[A:1]', 'CNS(=O)(=O)c1ccccc1', None),   # masked atom absent from the replacement
+    # the deleted atom has two unmatched neighbours in one surviving fragment (1-azabicyclo[1.1.1]pentane loses its N)
+    ('[C:1][N:2]', '[A:1]', 'C1N2CC1C2', None),
+    ('[C:1][O:2]', '[A:1]', 'C1OC2CC1C2', None),
 ]
 
 
@@ -127,6 +136,11 @@ def h_template(V, k, synth=False, falsify=False):
             if a is not None:
                 keep = [x for x in nbrs[n] if x not in gone]
                 V.prove(sorted(x for x in p._bonds[n] if x in mol._atoms) == keep, 'and their neighbours', dict(info, atom=n))
+                if mol._atoms[n].stereo is not None and len(keep) == len(nbrs[n]) and not (set(keep) & matched) and \
+                        n in mol.stereogenic_tetrahedrons and n in p.stereogenic_tetrahedrons:
+                    V.prove(a.stereo is not None and p._translate_tetrahedron_sign(n, keep) ==
+                            mol._translate_tetrahedron_sign(n, keep), 'an untouched stereocentre keeps its configuration',
+                            dict(info, atom=n))
         for qn, ra in t._replacement.atoms():
             if qn in mp:
                 a = p._atoms[mp[qn]]
